@@ -33,3 +33,5 @@ def run(repo, res, tier):
     # delimiter-free interior -- the empty one included
     from .. import langrules as _lr2
     _lr2.rule_units_lang(repo, res, _lr2.analyse(repo))
+    from .. import encrules as _enc2
+    _enc2.rule_quote_free(repo, res)
